@@ -249,7 +249,20 @@ func registerHarnessIntrinsics() {
 		}
 		name := "h." + a[0].(string)
 		if in.concrete {
-			in.unsupported("VerifUF in concrete mode")
+			// self-test: the value of an uninterpreted objective is derived from
+			// (seed, name, argument bits), identically in the native runtime
+			seed, auto := in.job.Concrete["*auto"]
+			if !auto {
+				in.unsupported("VerifUF in concrete mode without derived inputs")
+			}
+			key := a[0].(string)
+			for _, x := range args {
+				if !x.IsConst() {
+					in.unsupported("VerifUF: symbolic argument in concrete mode")
+				}
+				key += fmt.Sprintf(":%x", math.Float64bits(x.F))
+			}
+			return term.FloatC(term.F64, autoFloat(seed, "uf/"+key))
 		}
 		return term.UF(term.F64, name, args...)
 	})
